@@ -346,6 +346,38 @@ where
 }
 
 /// Stage of the query.
+
+#[cfg(discv5_verif)]
+impl<TNodeId, TResult> PredicateQuery<TNodeId, TResult>
+where
+    TNodeId: Into<Key<TNodeId>> + Eq + Clone,
+    TResult: Into<TNodeId> + Clone,
+{
+    /// Verification hook: (progress, num_waiting, [(peer, state)] in distance order).
+    pub fn verif_state(&self) -> (&'static str, usize, Vec<(TNodeId, &'static str)>) {
+        let progress = match self.progress {
+            QueryProgress::Iterating { .. } => "Iterating",
+            QueryProgress::Stalled => "Stalled",
+            QueryProgress::Finished => "Finished",
+        };
+        let peers = self
+            .closest_peers
+            .values()
+            .map(|p| {
+                let state = match p.state {
+                    QueryPeerState::NotContacted => "NotContacted",
+                    QueryPeerState::Waiting(_) => "Waiting",
+                    QueryPeerState::Unresponsive => "Unresponsive",
+                    QueryPeerState::Failed => "Failed",
+                    QueryPeerState::Succeeded => "Succeeded",
+                };
+                (p.key.preimage().clone(), state)
+            })
+            .collect();
+        (progress, self.num_waiting, peers)
+    }
+}
+
 #[derive(Debug, PartialEq, Eq, Copy, Clone)]
 enum QueryProgress {
     /// The query is making progress by iterating towards `num_results` closest
